@@ -699,7 +699,7 @@ func (c *FnCtx) callFunc(st *State, call *ast.CallExpr, fn *types.Func, recv *Va
 			if a.S == SInt && a.Typ != nil {
 				if pt, ok := a.Typ.Underlying().(*types.Pointer); ok {
 					if nt, ok := types.Unalias(pt.Elem()).(*types.Named); ok {
-						if as, isAbs := c.V.specs.Abstract[typeShortName(nt)]; isAbs && i == 0 && sig.Recv() != nil {
+						if as, isAbs := c.V.specs.Abstract[typeShortName(nt)]; isAbs && i == 0 && sig.Recv() != nil && con.Flags["recv-value"] {
 							hk := "ptr." + sortName(as)
 							h := c.heapGet(st, hk, as)
 							absPtr[n] = a.T
